@@ -420,7 +420,16 @@ impl<'a> GeneratorState<'a> {
                 }
             }
             Expr::Identifier(var, _) => {
-                let v = self.compiler_state.get_variable(var);
+                // X, Y and unknown names are not variables
+                let v = match self.compiler_state.variables.get(var) {
+                    Some(v) => v,
+                    None => {
+                        return Err(self.compiler_state.syntax_error(
+                            "Sizeof only works on variables and simple types",
+                            pos,
+                        ))
+                    }
+                };
                 match v.var_type {
                     VariableType::CharPtr => {
                         if v.var_const {
